@@ -47,6 +47,9 @@ def lib():
     return Rec
 
 
+EMPTY_CTX = [False]
+
+
 def sample(mode, i, return_ctx):
     import torch
     items = {"x": torch.full((2, 2), float(i)), "class": i % 3, "index": i}
@@ -54,7 +57,7 @@ def sample(mode, i, return_ctx):
     if len(s) == 1:
         s = s[0]
     if return_ctx:
-        return (s, {"pre": float(i), "pre2": i})
+        return (s, {} if EMPTY_CTX[0] else {"pre": float(i), "pre2": i})
     return s
 
 
@@ -110,8 +113,8 @@ def run_pipeline(entry, seq, adds, mode, return_ctx, B):
 
 def check_pipeline(entry, seq, adds, mode, return_ctx, B, p):
     import torch
-    case = dict(entry=entry, seq=list(seq), adds=list(adds), mode=mode, return_ctx=return_ctx, B=B)
-    tag = f"|entry={entry}|seq={'>'.join(str(m) for m in seq)}|return_ctx={return_ctx}"
+    case = dict(entry=entry, seq=list(seq), adds=list(adds), mode=mode, return_ctx=return_ctx, B=B, empty_ctx=EMPTY_CTX[0])
+    tag = f"|entry={entry}|seq={'>'.join(str(m) for m in seq)}|return_ctx={return_ctx}{'|empty_ctx' if EMPTY_CTX[0] else ''}"
     exp = model(seq)
     p.evaluations += 1
     try:
@@ -154,12 +157,12 @@ def _judge_pipeline(entry, seq, adds, mode, return_ctx, B, p, case, tag, exp, ou
             bad("ctx_not_returned", f"returned {type(out).__name__}")
             return
         out, ctx = out
-        want = {"pre", "pre2"} | {a for a in adds if a}
+        want = (set() if EMPTY_CTX[0] else {"pre", "pre2"}) | {a for a in adds if a}
         if set(ctx) != want:
             bad("ctx_keys_lost_or_invented", f"ctx keys {sorted(ctx)}, expected {sorted(want)}")
             return
-        if not (torch.is_tensor(ctx["pre"]) and ctx["pre"].tolist() == [float(i) for i in range(B)]
-                and ctx["pre2"].tolist() == list(range(B))):
+        if not EMPTY_CTX[0] and not (torch.is_tensor(ctx["pre"]) and ctx["pre"].tolist() == [float(i) for i in range(B)]
+                                     and ctx["pre2"].tolist() == list(range(B))):
             bad("ctx_values_not_batched", f"{ctx}")
             return
         if any(not l["ctx_batched"] for l in log):
@@ -304,7 +307,14 @@ def task(args):
             for mode in ("x", "x class", "index x class"):
                 for rc in (False, True):
                     for B in (1, 2, 3):
+                        EMPTY_CTX[0] = False
                         check_pipeline(entry, seq, adds, mode, rc, B, p)
+                        if rc and B <= 2:
+                            EMPTY_CTX[0] = True  # ModeWrapper(return_ctx=True) hands out {} when nothing records anything
+                            try:
+                                check_pipeline(entry, seq, adds, mode, rc, B, p)
+                            finally:
+                                EMPTY_CTX[0] = False
         p.sample(dict(entry=payload[0][0], sequence=list(payload[0][1]), adds=list(payload[0][2])))
     elif what == "shipped":
         shipped_pipeline(p)
@@ -350,5 +360,9 @@ def replay(case):
     elif case.get("shipped"):
         shipped_pipeline(p)
     else:
-        check_pipeline(case["entry"], tuple(case["seq"]), tuple(case["adds"]), case["mode"], case["return_ctx"], case["B"], p)
+        EMPTY_CTX[0] = bool(case.get("empty_ctx"))
+        try:
+            check_pipeline(case["entry"], tuple(case["seq"]), tuple(case["adds"]), case["mode"], case["return_ctx"], case["B"], p)
+        finally:
+            EMPTY_CTX[0] = False
     return None if not p.violations else "; ".join(m for _, m in list(p.violations.values())[:3])
